@@ -103,6 +103,8 @@ func putCRSTree(w *World, root string, t *rapid.T, label string) {
 	w.Put(root+"/tests/regression/tests/REQUEST-942-APPLICATION-ATTACK-SQLI/9421400.yaml", dirtyYaml)
 	w.Put(root+"/tests/regression/tests/REQUEST-942-APPLICATION-ATTACK-SQLI/notes.yaml", dirtyYaml)
 	w.Put(root+"/tests/regression/README.yaml", dirtyYaml)
+	w.Put(root+"/tests/regression/942155.yaml", dirtyYaml)
+	w.Put(root+"/tests/regression/nuclei/942156.yml", dirtyYaml)
 	// correctly numbered, only the end of the file is not normalised: --check must report it and still not write
 	w.Put(root+"/tests/regression/tests/REQUEST-942-APPLICATION-ATTACK-SQLI/942160.yaml", "---\ntests:\n  - test_id: 1\n    desc: a\n  - test_id: 2\n    desc: b\n\n   \n")
 	w.Put(root+"/tests/regression/tests/REQUEST-942-APPLICATION-ATTACK-SQLI/942170.yml", "---\ntests:\n  - test_id: 1\n    desc: no final newline")
